@@ -691,3 +691,162 @@ pub fn replay_c20(case: &J, rep: &mut Report) -> Result<(), String> {
     let _ = unhex;
     Ok(())
 }
+
+// ------------------------------------------------------------ C19 cost probe
+
+/// The function whose instruction count callgrind collects
+/// (`--toggle-collect=*cost_probe_measured*`). Drains the non-overlapping
+/// iterator over the given span and returns the number of matches.
+#[inline(never)]
+pub fn cost_probe_measured(s: &S, hay: &[u8], span: (usize, usize)) -> usize {
+    match s.try_find_iter(Input::new(hay).span(span.0..span.1)) {
+        Ok(v) => v.len(),
+        Err(_) => usize::MAX,
+    }
+}
+
+pub const COST_FAMILIES: [&str; 14] = [
+    "Memmem", "StartBytesOne", "StartBytesTwo", "StartBytesThree", "RareBytesOne", "RareBytesTwo",
+    "RareBytesThree", "Packed", "none-akb", "none-fib", "none-nested", "none-periodic", "ci-trie", "standard-RareBytesTwo",
+];
+
+/// Build the searcher and a haystack "body" of exactly `n` bytes for a cost
+/// family. The body shape scales with n: no candidate bytes in its first
+/// half, then a false candidate every few bytes so that the search keeps
+/// returning to the start state and consulting the prefilter.
+pub fn cost_case(family: &str, n: usize, seed: u64) -> Result<(Cfg, Vec<Vec<u8>>, S, Vec<u8>), String> {
+    let mut rng = Rng::new(seed).fork(0xC057);
+    let variants = ["Memmem", "StartBytesOne", "StartBytesTwo", "StartBytesThree", "RareBytesOne", "RareBytesTwo", "RareBytesThree", "Packed"];
+    let (want, kind) = match family {
+        "standard-RareBytesTwo" => ("RareBytesTwo", Kind::Standard),
+        f if variants.contains(&f) => (f, Kind::LeftmostFirst),
+        _ => ("", Kind::LeftmostFirst),
+    };
+    if !want.is_empty() {
+        // find a pattern list that selects the wanted prefilter
+        for _ in 0..3000 {
+            let (pats, ci) = crate::meta::prefilter_patterns(&mut rng);
+            if ci || pats.iter().map(|p| p.len()).sum::<usize>() > 200 {
+                continue;
+            }
+            let cfg = Cfg::new(Imp::TopCnfa, kind);
+            if cfg.prefilter_variant(&pats) != want {
+                continue;
+            }
+            let s = cfg.build(&pats)?;
+            // candidate bytes: every byte of every pattern is a potential
+            // prefilter candidate; the filler is a byte in no pattern
+            let mut used = [false; 256];
+            for p in &pats {
+                for &b in p {
+                    used[b as usize] = true;
+                }
+            }
+            let filler = (b'0'..=b'9').chain(0x80..=0xFFu8).find(|&b| !used[b as usize]).ok_or("no filler byte")?;
+            let cands: Vec<u8> = (0..=255u8).filter(|&b| used[b as usize]).collect();
+            let mut hay = vec![filler; n];
+            let mut i = n / 2;
+            while i < n {
+                hay[i] = cands[(i / 7) % cands.len()];
+                i += 7 + (i % 5);
+            }
+            return Ok((cfg, pats, s, hay));
+        }
+        return Err(format!("no pattern list found for prefilter variant {}", want));
+    }
+    let (pats, hay, ci): (Vec<Vec<u8>>, Vec<u8>, bool) = match family {
+        "none-akb" => {
+            let k = 200;
+            let mut p = vec![b'a'; k];
+            p.push(b'b');
+            (vec![p, vec![b'a'; 50]], {
+                let mut h = vec![b'a'; n];
+                for i in (0..n).step_by(997) {
+                    h[i] = b'c';
+                }
+                h
+            }, false)
+        }
+        "none-fib" => {
+            let mut a = b"a".to_vec();
+            let mut b = b"ab".to_vec();
+            while b.len() < 600 {
+                let mut c = b.clone();
+                c.extend_from_slice(&a);
+                a = b;
+                b = c;
+            }
+            let mut p = b.clone();
+            p.push(b'c');
+            let mut h = b.clone();
+            while h.len() < n {
+                let t = h.clone();
+                h.extend_from_slice(&t);
+            }
+            h.truncate(n);
+            (vec![p, a.clone()], h, false)
+        }
+        "none-nested" => {
+            let k = 120;
+            let pats: Vec<Vec<u8>> = (0..k)
+                .map(|j| {
+                    let mut p = vec![b'a'; k - j];
+                    p.push(b'b' + (j % 20) as u8);
+                    p
+                })
+                .collect();
+            let mut h = vec![b'a'; n];
+            for i in (0..n).step_by(301) {
+                h[i] = b'z';
+            }
+            (pats, h, false)
+        }
+        "none-periodic" => {
+            let mut base: Vec<u8> = vec![];
+            for _ in 0..150 {
+                base.extend_from_slice(b"ab");
+            }
+            let mut p1 = base.clone();
+            p1.push(b'c');
+            let mut p2 = base[1..].to_vec();
+            p2.push(b'd');
+            ((vec![p1, p2]), (0..n).map(|i| if i % 2 == 0 { b'a' } else { b'b' }).collect(), false)
+        }
+        "ci-trie" => {
+            let w: Vec<u8> = (0..40).map(|i| if i % 2 == 0 { b'a' } else { b'B' }).collect();
+            let mut w2 = w.clone();
+            w2.push(b'x');
+            (vec![w.clone(), w2, w[1..].to_vec()], (0..n).map(|i| if (i / 3) % 2 == 0 { b'A' } else { b'b' }).collect(), true)
+        }
+        _ => return Err(format!("unknown cost family {}", family)),
+    };
+    let cfg = Cfg::new(Imp::TopCnfa, Kind::LeftmostFirst).ci(ci).pre(false);
+    let s = cfg.build(&pats)?;
+    Ok((cfg, pats, s, hay))
+}
+
+/// `acmon cost <family> <n> <mode> <seed>`: mode full | span | sub.
+pub fn cost_main(family: &str, n: usize, mode: &str, seed: u64) -> Result<String, String> {
+    let (cfg, pats, s, body) = cost_case(family, n, seed)?;
+    let (hay, span) = match mode {
+        "full" | "sub" => {
+            let l = body.len();
+            (body, (0, l))
+        }
+        "span" => {
+            // a long prefix without any candidate byte, then the body
+            let filler = body[0];
+            let prefix = 262_144;
+            let mut h = vec![filler; prefix];
+            h.extend_from_slice(&body);
+            let l = h.len();
+            (h, (prefix, l))
+        }
+        _ => return Err("mode must be full, span or sub".into()),
+    };
+    let matches = cost_probe_measured(&s, &hay, span);
+    Ok(format!(
+        "{{\"family\":\"{}\",\"n\":{},\"mode\":\"{}\",\"cfg\":\"{}\",\"patterns\":{},\"matches\":{}}}",
+        family, n, mode, cfg.label(), pats.len(), matches
+    ))
+}
